@@ -355,7 +355,9 @@ def fix_case(draw, tier="quick", rules=None, mutate=None, gsql_weight=2, fixture
     which = draw(st.sampled_from(["gsql"] * gsql_weight + ["fixture"] * fixture_weight + ["mutated"] * mutated_weight))
     if which == "gsql":
         d = draw(st.sampled_from(["sqlite", "sqlite", "ansi", "postgres", "duckdb"]))
-        c = draw(gens.gsql_case(dialect=d, uniform=True, **(gsql_features or {})))
+        feats = dict(gsql_features or {})
+        feats.setdefault("multi_cte", True)
+        c = draw(gens.gsql_case(dialect=d, uniform=True, **feats))
         if comments_inside and draw(st.booleans()):
             c["sql"] = sprinkle_comments(c["sql"], gens.seeded_rng(draw))
     else:
